@@ -299,6 +299,39 @@ pub fn cutoff_topologies(thorough: bool) -> Vec<Topo> {
     v
 }
 
+/// C15 only: terminal links shorter than / comparable to the trains (360 m and 1080 m): the last (first) events of a
+/// route fall into the final train length of the path.  Plain line and behind a siding, terminal length on a grid.
+pub fn short_terminal_topologies(thorough: bool) -> Vec<Topo> {
+    let mut v = vec![];
+    let lens: Vec<f64> = if thorough { vec![150.0, 300.0, 500.0, 700.0, 900.0, 1200.0, 1500.0, 2000.0, 2500.0, 3000.0] } else { vec![200.0, 500.0, 900.0, 1500.0, 2500.0] };
+    for d in lens {
+        // line: YW(1, 10 km) -> S(2, 3 km) -> D(3, short)
+        {
+            let f = line_topology(&[YARD, 3000.0, d], 20.0);
+            v.push(finish(&format!("short-dest-line-{}", d as u32), f, vec![("W", vec![1]), ("D", vec![3])], vec![(0, 1, true), (1, 0, false)]));
+        }
+        // siding in front of the short terminal: YW(1) -> S1(2) -> [M(3) | SD(4)] -> D(5, short)
+        {
+            let lens = [YARD, 3000.0, 2000.0, 2000.0, d];
+            let mut f: Vec<FwdLink> = lens.iter().map(|l| FwdLink::new(*l, 20.0)).collect();
+            let set = |f: &mut Vec<FwdLink>, i: usize, prev: usize, prev_alt: usize, next: usize, next_alt: usize| {
+                f[i - 1].prev = prev;
+                f[i - 1].prev_alt = prev_alt;
+                f[i - 1].next = next;
+                f[i - 1].next_alt = next_alt;
+            };
+            set(&mut f, 1, 0, 0, 2, 0);
+            set(&mut f, 2, 1, 0, 3, 4);
+            set(&mut f, 3, 2, 0, 5, 0);
+            set(&mut f, 4, 2, 0, 5, 0);
+            set(&mut f, 5, 3, 4, 0, 0);
+            f[3].speed_limits = vec![(0.0, 2000.0, 10.0)];
+            v.push(finish(&format!("short-dest-siding-{}", d as u32), f, vec![("W", vec![1]), ("D", vec![5])], vec![(0, 1, true), (1, 0, false)]));
+        }
+    }
+    v
+}
+
 #[derive(Debug, Clone, Copy, Serialize, Deserialize, PartialEq, Eq, Hash)]
 pub struct TrainDesc {
     /// index into topo.ods
